@@ -21,10 +21,16 @@ def to_smt2(ob, axioms=(), rounds=2, small=False):
     return so.to_smt2()
 
 
+WALL_FACTOR = 8      # a solver budget is a CPU-time budget (ulimit -t); the wall clock cap is this many times larger, so that a busy
+#                      machine (other checks running on the same cores) does not turn proved obligations into timeouts
+
+
 def _run(cmd, timeout):
     t0 = time.time()
+    cpu = max(1, int(timeout))
+    cmd = ['/bin/sh', '-c', f'ulimit -t {cpu}; exec "$0" "$@"'] + list(cmd)
     try:
-        p = subprocess.run(cmd, capture_output=True, text=True, timeout=timeout + 5)
+        p = subprocess.run(cmd, capture_output=True, text=True, timeout=timeout * WALL_FACTOR + 5)
         out = (p.stdout or '').strip().splitlines()
         first = out[0].strip() if out else ''
         if first in ('sat', 'unsat', 'unknown'):
@@ -41,13 +47,13 @@ def solve_text(txt, timeout, workdir, tag, try_cvc5=True, both=False):
     # stage 1: z3 with a short budget (almost every obligation is discharged in milliseconds);
     # stage 2: cvc5 with the full budget; stage 3: z3 again with the full budget and another seed
     short = min(3, timeout)
-    r, dt, err = _run([Z3, '-smt2', f'-T:{int(short)}', path], short)
+    r, dt, err = _run([Z3, '-smt2', f'-T:{int(short) * WALL_FACTOR}', path], short)
     res = dict(verdict=r, solver='z3-5.1.0', time=dt, err=err)
     if (r in ('unknown', 'timeout') and try_cvc5) or both:
         p2 = os.path.join(workdir, tag + '.cvc5.smt2')
         with open(p2, 'w') as f:
             f.write('(set-logic ALL)\n' + txt)
-        r2, dt2, err2 = _run([CVC5, '--strings-exp', f'--tlimit={int(timeout * 1000)}', p2], timeout)
+        r2, dt2, err2 = _run([CVC5, '--strings-exp', f'--tlimit={int(timeout * 1000) * WALL_FACTOR}', p2], timeout)
         res['cvc5'] = dict(verdict=r2, time=dt2, err=err2)
         if r in ('unknown', 'timeout') and r2 in ('sat', 'unsat'):
             res.update(verdict=r2, solver='cvc5-1.0.3', time=dt + dt2)
@@ -58,7 +64,7 @@ def solve_text(txt, timeout, workdir, tag, try_cvc5=True, both=False):
         except OSError:
             pass
     if res['verdict'] in ('unknown', 'timeout') and timeout > short:
-        r3, dt3, err3 = _run([Z3, '-smt2', f'-T:{int(timeout)}', 'smt.random_seed=7', 'sat.random_seed=7', path], timeout)
+        r3, dt3, err3 = _run([Z3, '-smt2', f'-T:{int(timeout) * WALL_FACTOR}', 'smt.random_seed=7', 'sat.random_seed=7', path], timeout)
         res['z3_retry'] = dict(verdict=r3, time=dt3)
         if r3 in ('sat', 'unsat'):
             res.update(verdict=r3, solver='z3-5.1.0(retry)', time=res['time'] + dt3)
@@ -83,7 +89,7 @@ def discharge_texts(items, timeout=10, jobs=16, both=False):
         else:
             r = None
             if it.get('smt2_small'):        # fewer hypotheses first: only `unsat` counts there
-                r0, dt0, _ = _run([Z3, '-smt2', '-T:3', _write(workdir, f'q{i}s', it['smt2_small'])], 3)
+                r0, dt0, _ = _run([Z3, '-smt2', f'-T:{3 * WALL_FACTOR}', _write(workdir, f'q{i}s', it['smt2_small'])], 3)
                 if r0 == 'unsat':
                     r = dict(verdict='unsat', solver='z3-5.1.0(small context)', time=dt0, err='')
             if r is None:
